@@ -26,12 +26,30 @@ func TestReplayFile(t *testing.T) {
 	if err := json.Unmarshal(b, &v); err != nil {
 		t.Fatal(err)
 	}
+	if v.Replay["kind"] == "retry-concurrent" {
+		var cs []c20Case
+		for _, e := range v.Replay["calls"].([]any) {
+			m := e.(map[string]any)
+			g := func(k string) int64 { x, _ := m[k].(float64); return int64(x) }
+			cs = append(cs, c20Case{Timeout: time.Duration(g("timeout_ns")), MaxDelay: time.Duration(g("max_ns")), Dur: time.Duration(g("dur_ns")), SuccessAt: int(g("success_at")), HeaderKind: int(g("header_kind")), BodyLen: int(g("body_len")), ErrKind: int(g("err_kind"))})
+		}
+		for i := 0; i < 20; i++ {
+			var key, detail string
+			key, detail = runConcurrentWatched(t, cs, gen.NewStream(uint64(i), "replay"))
+			if key != "" && key != "inconclusive" {
+				fmt.Printf("REPLAY-VIOLATION property=%s key=%s %s\n", v.Property, key, detail)
+				return
+			}
+		}
+		fmt.Println("REPLAY-OK")
+		return
+	}
 	if v.Replay["kind"] != "retry" {
 		fmt.Println("REPLAY-UNSUPPORTED kind=", v.Replay["kind"])
 		return
 	}
-	f := func(k string) int64 { return int64(v.Replay[k].(float64)) }
-	c := c20Case{Timeout: time.Duration(f("timeout_ns")), MaxDelay: time.Duration(f("max_ns")), Dur: time.Duration(f("dur_ns")), SuccessAt: int(f("success_at")), HeaderKind: int(f("header_kind")), BodyLen: int(f("body_len"))}
+	f := func(k string) int64 { x, _ := v.Replay[k].(float64); return int64(x) }
+	c := c20Case{Timeout: time.Duration(f("timeout_ns")), MaxDelay: time.Duration(f("max_ns")), Dur: time.Duration(f("dur_ns")), SuccessAt: int(f("success_at")), HeaderKind: int(f("header_kind")), BodyLen: int(f("body_len")), ErrKind: int(f("err_kind"))}
 	for i := 0; i < 60; i++ {
 		var key, detail string
 		synctest.Test(t, func(t *testing.T) { key, detail = runCase(c, gen.NewStream(uint64(i), "replay")) })
